@@ -35,7 +35,7 @@ CLAIMED.update({
             "value satisfies X = t*Y + R, |R| < |Y|, sign(R) in {0, sign X} with a witness t assembled from the implementation's own quotient digits; "
             "failures only for a zero divisor or the documented up-scaling overflow.", "2 C10"),
     "C14": ("From<T>, TryFrom<u128>, TryFrom<Decimal> for all 10 integer targets and all scales: Ok / NotAnIntValue / ValueOutOfRange exactly as specified.", "2 C14"),
-    "C15": ("floor/ceil/trunc/fract/abs/neg/predicates/magnitude from the MIR for all coefficients and scales, num-traits wrappers on the feature MIR; "
+    "C15": ("floor/ceil/trunc/fract/abs/neg/predicates/magnitude from the MIR for all coefficients and scales, num-traits wrappers (incl. from_str_radix: Invalid for every radix != 10, from_str on the same string otherwise) on the feature MIR; "
             "i128_magnitude and Decimal::magnitude bit-precisely for all inputs by two Kani harnesses.", "2 C15"),
 })
 CLAIMED.update({
@@ -64,7 +64,8 @@ CLAIMED.update({
             "all u64; mir2smt with a byte-slice model for canonical shapes, 30-41 digit mantissas at every dot position, over-long mantissas and exponent shapes "
             "(digits symbolic); from_str's exponent folding for every (coefficient, exponent) pair.", "2 C06, 9.2"),
     "C07": ("String::from / Debug / Display (no precision): the values handed to core::fmt are ('-' iff c<0, |c| div 10^p, |c| mod 10^p, width p) for all (c, p); template "
-            "constants byte-identical to the documented format strings compiled by the same compiler; round trip through the parser via the canonical shapes of C06.", "2 C07"),
+            "constants byte-identical to the documented format strings compiled by the same compiler; round trip through the parser via the canonical shapes of C06; "
+            "feature serde-as-str: the derived Serialize/Deserialize impls executed from the feature MIR (wiring to String::from / from_str, error pass-through).", "2 C07, 9.2"),
     "C11": ("Display::fmt under every precision (None, 0..=18, symbolic >= 19), scale, mode: digits handed to core::fmt are those of the singly rounded / zero-extended "
             "value, sign flag from d, empty prefix; width/fill/flags are pad_integral's documented behaviour (arguments checked).", "2 C11"),
     "C18": ("the macro's post-processing of str_to_dec's result (fpdec-macros MIR) vs. from_str's folding, executed on the same symbolic (coefficient, exponent) / error: "
@@ -97,10 +98,10 @@ def main():
         "version": 1,
         "setup_cmd": "cd /verif && ./setup.sh",
         "hooks": {"guard": "fpdec_verif", "enable": "RUSTFLAGS='--cfg fpdec_verif' when building the native replay driver (/verif/replay); the MIR dumps are taken with the guard off",
-                  "baseline_off_cmd": "cd /repo && cargo test --workspace --no-fail-fast --offline", "source_commits": ["9654da5"], "add_only": True},
+                  "baseline_off_cmd": "cd /repo && cargo test --workspace --no-fail-fast --offline", "source_commits": ["9654da5", "85f62ff"], "add_only": True},
         "engines": [
-            {"name": "mir2smt", "path": "/verif/mir2smt", "serves_properties": sorted(CLAIMED), "kind_free_text": "MIR -> SMT symbolic executor (z3 5.1, Int theory), path-wise with optional state merging"},
-            {"name": "kani", "path": "/verif/kani", "serves_properties": ["C06", "C15"], "kind_free_text": "Kani 0.68 / CBMC 6.11 proof harnesses over the real crate (path dependency)"},
+            {"name": "mir2smt", "path": "/verif/mir2smt", "serves_properties": sorted(CLAIMED), "kind_free_text": "MIR -> SMT symbolic executor (z3 5.1, Int theory), path-wise with optional state merging; sampled second-solver pass with cvc5 1.0 and z3 4.8"},
+            {"name": "kani", "path": "/verif/kani", "serves_properties": ["C06", "C08", "C15"], "kind_free_text": "Kani 0.68 / CBMC 6.11 proof harnesses over the real crate (path dependency)"},
         ],
         "checks": checks,
         "not_applicable": na,
